@@ -8,7 +8,7 @@ export ASAN_OPTIONS="exitcode=77:detect_leaks=0:allocator_may_return_null=1:log_
 mkdir -p $B/selfcheck $B/san; rc=0
 run() { # flavour suite prop runs
   for w in 3 11; do
-    $B/bxsim-$1 check --prop $3 --suites $2 --seed ${SEED:-4242} --runs $4 --budget-s 100000 --workers $w --det-samples 0 --trace-out $B/selfcheck/$1-$2-$w.txt --replay-dir $B/selfcheck/replays > $B/selfcheck/$1-$2-$w.log 2>&1
+    $B/bxsim-$1 check --prop $3 --suites $2 ${FRESH:+--fresh 1} --seed ${SEED:-4242} --runs $4 --budget-s 100000 --workers $w --det-samples 0 --trace-out $B/selfcheck/$1-$2-$w.txt --replay-dir $B/selfcheck/replays > $B/selfcheck/$1-$2-$w.log 2>&1
     sort $B/selfcheck/$1-$2-$w.txt > $B/selfcheck/$1-$2-$w.sorted
   done
   if cmp -s $B/selfcheck/$1-$2-3.sorted $B/selfcheck/$1-$2-11.sorted; then echo "DETERMINISTIC $1/$2: $(wc -l < $B/selfcheck/$1-$2-3.sorted) runs, identical digests with 3 and 11 workers";
@@ -16,4 +16,5 @@ run() { # flavour suite prop runs
 }
 run plain gen-hist C07 $N; run plain gen-sweep C04 $((N/4)); run asan gen-hist C08 $((N/2)); run asan proto C09 $N; run asan reader C11 $N
 run asan run C13 $N; run asan files-events C15 $N; run asan files-ga C15 $N; run asan files-lists C15 $((N/20)); run asan threads C12 $((N/6)); run tsan threads C12 $((N/15)); run tsan threads-twins C12 $((N/8))
+FRESH=1; run asan threads C12 $((N/6)); run tsan threads C12 $((N/15))
 exit $rc
